@@ -191,6 +191,8 @@ namespace OpenMEEG {
     inline Vector Matrix::operator*(const Vector& v) const {
         om_assert(ncol()==v.nlin());
         Vector res(nlin());
+        for (Index i=0; i<nlin(); ++i) // DGEMV leaves y untouched when a dimension is zero.
+            res.data()[i] = 0.0;
     #ifdef HAVE_BLAS
         const BLAS_INT M = sizet_to_int(nlin());
         const BLAS_INT N = sizet_to_int(ncol());
@@ -284,6 +286,8 @@ namespace OpenMEEG {
     inline Vector Matrix::tmult(const Vector& v) const {
         om_assert(nlin()==v.nlin());
         Vector res(ncol());
+        for (Index i=0; i<ncol(); ++i) // DGEMV leaves y untouched when a dimension is zero.
+            res.data()[i] = 0.0;
     #ifdef HAVE_BLAS
         const BLAS_INT M = sizet_to_int(nlin());
         const BLAS_INT N = sizet_to_int(ncol());
